@@ -5,7 +5,7 @@
 import KiraModel.Exec.SuiteParam
 import KiraModel.Model.Probe
 
-namespace K.Exec
+namespace K.Exec.Mix
 open K K.Proto
 
 /-- a fixed-speed clock, just enough of clock.rs for `resume_at(ClockTime)` histories
@@ -321,4 +321,4 @@ def mixStep (st : MixState) (tok : List String) : Option (MixState × String) :=
       (s, if dead then (outs.getLast?.getD "fault panic") else String.intercalate " || " outs))
   | _ => mixStep1 st tok
 
-end K.Exec
+end K.Exec.Mix
